@@ -33,6 +33,10 @@ def queue_rules(retry=3, streams=2, ring=3, extra=None):
 NO_TEARDOWN_CUT = [r'3Arc.*(10MultiQueue|7FutWait).*9drop_slow']
 
 DEFAULT = dict(unwind=4, rules=queue_rules(), mem_gb=16, timeout=780)
+# harness runs of a quick check end this many seconds after the check started (a quick check is stopped from outside
+# after 900 s; what remains is for trace extraction, native replay and E2); thorough: two hours
+QUICK_DEADLINE = 660
+THOROUGH_DEADLINE = 7200
 
 ASSUMPTIONS = [
     "sequential consistency: the cfg(multiqueue2_verif) shim atomics ignore Ordering arguments and fences are no-ops",
@@ -94,7 +98,7 @@ def config_for(name, tier="quick"):
     if not h.get("teardown") and "remove_bodies" not in h:
         cfg["remove_bodies"] = NO_TEARDOWN_CUT
     if tier == "thorough":
-        cfg["timeout"] = max(cfg["timeout"], h.get("timeout_thorough", 3600))
+        cfg["timeout"] = max(cfg["timeout"], h.get("timeout_thorough", 1800))
     return cfg
 
 
@@ -180,6 +184,11 @@ H("c04_mp_view_inview", T, "C05", ["C04", "C05", "C03"], "quick",
 H("c06_bc_sibdrop_inclone", T, "C06", ["C06", "C12", "C04", "C05"], "quick",
   "broadcast shared stream, instrumented payload: consumer A is in the middle of clone() when its sibling handle is dropped (consumers 2->1) and the producer sends",
   "N=2, prefix <=2 sends <=1 recv, injection only inside Clone, up to 3 ops at that site")
+H("c06_bc_sibdrop_forced", T, "C06", ["C06", "C12", "C04", "C05"], "thorough",
+  "broadcast shared stream N=2, instrumented payload: consumer A is inside clone() when its sibling handle is dropped there (always, a concrete place), then solver-chosen up to two sends of the producer; A receives again; quiescent probe/drain",
+  "N=2, exact prefix 2/1, forced site = A's first clone", teardown=False)
+H("c06_bc_sibdrop_forced_n1", T, "C06", ["C06", "C12", "C04", "C05"], "thorough",
+  "as c06_bc_sibdrop_forced with N=1 (the producer reaches the pinned slot at once)", "N=1, exact prefix 1/0", teardown=False)
 H("c06_bc_sibdrop_all", T, "C12", ["C06", "C12", "C01", "C03"], "quick",
   "broadcast shared stream: consumer A's try_recv preempted everywhere by the drop of its sibling handle and a send",
   "N=2, 1 op per actor, depth 1, budget 2")
@@ -248,11 +257,12 @@ H("c12_mp_consumers_o1", L, "C12", ["C12", "C01", "C02", "C03", "C06"], "quick",
   "N=2, prefix <=2/<=1, budget 2")
 H("c12_bc_consumers_o1", L, "C12", ["C12", "C01", "C02", "C03", "C06"], "thorough",
   "broadcast: consumers of one stream 1->2->1 during traffic", "N=2, budget 2")
-for n, w in (("c12_mp_senders2", "mpmc: sender handles 1->2->1: clone tx, the clone sends, the clone is dropped; the long-lived sender (which sent in single-writer state before) sends and the consumer receives at the churning actor's preemption points"),
-             ("c12_bc_senders2", "broadcast: sender handles 1->2->1 (as c12_mp_senders2)"),
-             ("c12_mp_consumers2", "mpmc: consumer handles of one stream 1->2->1: clone rx, the clone receives, the clone is dropped; the producer sends and the long-lived consumer receives at the churning actor's preemption points"),
-             ("c12_bc_consumers2", "broadcast: consumer handles of one stream 1->2->1 (as c12_mp_consumers2)")):
-    H(n, L, "C12", ["C12", "C01", "C02", "C03", "C06"], "quick", w, "N=2, symbolic prefix, budget 2, <=2 operations per site")
+for fl, fln in (("mp", "mpmc"), ("bc", "broadcast")):
+    for cn, w in (("senders2a", "sender handles 1->2: clone tx, the clone sends (multi-writer path); the long-lived sender - which sent in single-writer state before - sends and the consumer receives at the churning actor's preemption points"),
+                  ("senders2b", "sender handles 2->1: the clone sends, the clone is dropped; the long-lived sender sends and the consumer receives at the churning actor's preemption points"),
+                  ("consumers2a", "consumer handles of one stream 1->2: clone rx, the clone receives; the producer sends and the long-lived consumer receives at the churning actor's preemption points"),
+                  ("consumers2b", "consumer handles of one stream 2->1: the clone receives, the clone is dropped; the producer sends and the long-lived consumer receives at the churning actor's preemption points")):
+        H("c12_%s_%s" % (fl, cn), L, "C12", ["C12", "C01", "C02", "C03", "C06"], "thorough", fln + ": " + w, "N=2, symbolic prefix, budget 2, 1 operation per site", mem_gb=26)
 for n, w in (("c13_mp_one", "mpmc, one receiver handle"), ("c13_mp_two_handles", "mpmc, two handles of one stream"),
              ("c13_bc_two_streams", "broadcast, two streams, two senders"), ("c13_bc_two_handles", "broadcast N=1, two handles of one stream"),
              ("c13_bc_two_streams_rx0first", "broadcast N=1, two streams, stream 0 removed first")):
@@ -336,7 +346,19 @@ for n, w, t in (("c14_bc_poll_vs_send", "broadcast spins(0,0): stream task polls
                 ("c14_bc_send_vs_upoll", "broadcast N=1: start_send into a full queue vs poll of the single-consumer (view) receiver", "thorough"),
                 ("c14_bc10_poll_vs_send", "broadcast spins(1,0): poll vs start_send", "thorough"),
                 ("c14_mp11_send_vs_poll", "mpmc spins(1,1): start_send into a full queue vs poll", "thorough")):
-    H(n, FU, "C14", ["C14", "C15"], t, w + "; parked-and-never-notified oracle at quiescence", "depth 1, budget 1-3, up to 2 ops per site", rules=FUTRULES)
+    H(n, FU, "C14", ["C14", "C15"], t, w + "; parked-and-never-notified oracle at quiescence", "depth 1, budget 1-3, 1 op per site (two_polls: 2), every site", rules=FUTRULES)
+for n, w in (("c14s_bc_poll_vs_send", "broadcast N=2: stream task polls an empty (lapped) queue, the sink task's start_send runs at the protocol sites of the poll"),
+             ("c14s_mp_poll_vs_send", "mpmc N=1: poll vs start_send"),
+             ("c14s_mp_send_vs_poll", "mpmc N=1: sink task start_sends into a full queue, the stream task's poll (frees the slot, notifies) runs at the protocol sites of the start_send"),
+             ("c14s_bc_send_vs_poll", "broadcast N=2: start_send into a full queue vs poll"),
+             ("c14s_bc_poll_vs_droptx", "broadcast: poll on an empty queue vs drop of the last sender"),
+             ("c14s_mp_send_vs_droprx", "mpmc N=1: start_send into a full queue vs drop of the last receiver"),
+             ("c14s_bc_droptx_o1_vs_poll", "broadcast: the drop of the last sender preempted (runs exactly once): the stream task's whole poll on the empty queue (may park) runs at its protocol sites"),
+             ("c14s_mp_droprx_o1_vs_send", "mpmc N=1: the drop of the last receiver preempted (runs exactly once): the sink task's whole start_send into the full queue (may park) runs at its protocol sites"),
+             ("c14s_mp_send_o1_vs_poll", "mpmc N=1: the NOTIFYING side preempted: start_send (publish, then notify) with the stream task's whole poll (may park) at its protocol sites"),
+             ("c14s_mp_poll_o1_vs_send", "mpmc N=1: the NOTIFYING side preempted: poll (free the slot, then notify) with the sink task's whole start_send into the full queue (may park) at its protocol sites")):
+    H(n, FU, "C14", ["C14", "C15"], "thorough", w + "; preemption sites = every shim operation except plain loads (lock, parked-list push, notify, stores, read-modify-writes); parked-and-never-notified oracle at quiescence",
+      "depth 1, budget 1, 1 op per site", rules=FUTRULES)
 for n, w, t in (("c15_bc_hist", "broadcast N=1 spins(0,0)", "quick"), ("c15_mp_hist", "mpmc N=2 spins(0,0)", "quick"),
                 ("c15_bc10_hist", "broadcast N=2 spins(1,0)", "thorough")):
     H(n, FU, "C15", ["C15", "C09"], t, "every sub-sequence of the 10-call skeleton start_send start_send try_recv start_send try_send poll_complete poll poll drop_tx poll (after a concrete warm-up that fills the ring, parks once and drains) inside a task vs the model: " + w,
@@ -410,7 +432,7 @@ def _opt(name, *covers):
 
 
 for _n, _h in list(HARNESSES.items()):
-    if _h["mod"] == "scen_fut" and (_n.startswith("c14_") or _n == "c15_bc_fresh_poll"):
+    if _h["mod"] == "scen_fut" and (_n.startswith("c14_") or _n.startswith("c14s_") or _n == "c15_bc_fresh_poll"):
         if _n == "c14_bc_drop_stream_repoll":
             _opt(_n, "the task parked", "an operation ran at a preemption point", "the sink task was polled again while the stream was being removed")
         else:
@@ -445,6 +467,8 @@ _opt("c09_bc_a4", "the history wrapped the ring", "the history hit Full")
 H("c08_mp_blk00_twodrops_lap", W, "C08", ["C08", "C07", "C12"], "thorough",
   "mpmc N=1 BlockingWait(0,0), lapped ring: blocked recv while the last two sender handles are dropped, nesting depth 2 (one drop preempted everywhere by the other, both inside the waiter's wait)",
   "depth 2, budget 2", rules=WRULES, timeout=3000)
+_opt("c16_protocol_seq", "an operation ran at a preemption point")
+_opt("c16_wq_drop_seq", "three operations ran inside the removal", "a reclamation cycle freed the pre-loaded batch")
 _opt("c08_mp_blk00_twodrops_lap", "a waiter was legitimately left blocked", "the blocked receiver returned a value")
 
 for n, w in (("c17_churn_r3_nolag", "every handle announces in every round"), ("c17_churn_r3_lag", "handle 2 does no operation during round 2, i.e. it lags exactly while the first batch waits for it")):
@@ -488,17 +512,17 @@ QUICK = {
             "c03_fill_bc_c8", "c03_fill_mp_c9", "t5_mp_n1_o0", "t1_mp_n1_o0"],
     "C04": ["c04_bc_shared_inclone", "c04_bc_streams_inclone", "c04_bc_view_inview"],
     "C05": ["c04_mp_view_inview", "c05_seq_bc_n2_streams", "c05_seq_bc_n1_shared", "c05_seq_mp_n2_shared", "c05_mp_shared_all"],
-    "C06": ["t4_mp_n1_o0", "t3_bc_n2_o0", "t2_bc_n2_o0"],
+    "C06": ["t4_mp_n1_o0", "t3_bc_n2_o0", "t2_bc_n2_o0", "c06_bc_sibdrop_forced", "c06_bc_sibdrop_forced_n1"],
     "C07": ["c07_mp_one_o1", "c07_bc_view_o1", "c07_mp_view_o1"],
     "C08": ["c08_mp_blk00_send_lap", "c08_mp_blk00_drop_lap", "c08_mp_blk00_drop"],
     "C09": ["c09_mp_a1", "c09_bc_a2", "c09_mp_a3", "c09_mp_a4", "c09_bc_a5", "c09_bc_a2w", "c09_mp_a1w", "c09_bc_a5w"],
-    "C10": ["c10_bc_sole_o1"],
+    "C10": ["c10_bc_sole_o1", "c10_bc_sib_o1"],
     "C11": ["c11_bc_drop_last_o1", "c11_bc_unsub_last_o1", "c11_bc_unsub_nonlast_o1"],
-    "C12": [],
+    "C12": ["c12_mp_consumers2a", "c12_mp_consumers2b", "c12_mp_senders2a", "c12_mp_senders2b"],
     "C13": ["c13_mp_one", "c13_mp_two_handles", "c13_bc_two_streams", "c13_bc_two_handles", "c13_bc_two_streams_rx0first"],
-    "C14": ["c14_bc_send_vs_poll", "c14_mp_send_vs_poll", "c14_mp_send_vs_droprx", "c14_mp_send_vs_tryrecv", "c14_bc_drop_stream_repoll"],
+    "C14": ["c14_mp_send_vs_tryrecv", "c14_bc_drop_stream_repoll", "c14s_mp_poll_o1_vs_send"],
     "C15": ["c15_bc_hist6", "c15_mp_hist6", "c15_mp_hist8", "c15_mpfut_direct_recv", "c15_bcfut_direct_recv_drop", "c15_bc_fresh_poll"],
-    "C16": ["c16_protocol_seq", "c16_wq_drop_seq"],
+    "C16": ["c16_protocol_seq", "c16_add_vs_scan", "c16_remove_vs_scan"],
     "C17": ["c17_teardown_mp", "c17_teardown_bc_stream", "c17_teardown_bc_clone", "c17_churn_r3_nolag", "c17_churn_r3_lag"],
     "C18": ["c18_mp_frozen_recv", "c18_bc_frozen_send", "c18_mp_frozen_send_mw"],
 }
